@@ -27,9 +27,9 @@ CHECKS = {
         note="Trusted: Lean kernel; hand model tied by correspondence; driver JSON decoding glue; pandoc Figure excluded; whole-document content theorem is stated per step (content_step), not as one closed formula. Known finding: duplicate sibling headings lose the earlier body.",
         design="6/C15"),
     "C01": dict(
-        technique="Lean 4 proof (audit passed => every name resolution of construct is vouched, by mutual induction over the node tree, under a decidable side-condition on the per-loader table regenerated from the source by an AST translator) + instrumented differential correspondence of load",
-        text="audit_passed_only_vouched/load_only_vouched quantify over every node tree and trusted list; table_vouched (by decide) re-checks the side-condition on the table the translator extracts from the current _construct/__init__/get_unsafe_set of all 29 registered loaders; the model's tree, verdict and event trace are compared with the real get_tree/load under patched resolvers, audit hooks and canary modules on generated adversarial archives.",
-        note="Trusted: Lean kernel; harness/translate/nodes.py (AST symbolic executor; unknown syntax becomes an `unknown` use that no obligation accepts); the memo invariant for CachedNode targets (hypothesis `Safe` for trees with references; NoRefs trees are fully covered); library calls (np.load allow_pickle=False, load_npz, json.loads) inert by contract; calls made inside vouched callees are not modelled.",
+        technique="Lean 4 proof (for every JSON schema: load succeeded => every name resolution of construct is vouched; mutual induction over the node tree + the memo invariant of getTree proved by strong induction on fuel; decidable side-conditions on the per-loader table regenerated from the source by an AST translator) + instrumented differential correspondence of load",
+        text="load_archive_only_vouched / C01_archive_current quantify over every JSON value, member list, fuel and trusted list with no hypothesis on the tree (getTreeRoot_good proves the memo invariant for getTree itself); audit_passed_only_vouched/load_only_vouched(_refs) are the tree-level statements; table_vouched and table_ref_kinds_inert (by decide) re-check the side-conditions on the table the translator extracts from the current _construct/__init__/get_unsafe_set of all 29 registered loaders; the model's tree, verdict and event trace are compared with the real get_tree/load under patched resolvers, audit hooks and canary modules on generated adversarial archives.",
+        note="Trusted: Lean kernel; harness/translate/nodes.py (AST symbolic executor; unknown syntax becomes an `unknown` use that no obligation accepts); library calls (np.load allow_pickle=False, load_npz, json.loads) inert by contract; calls made inside vouched callees are not modelled.",
         design="6/C01"),
     "C02": dict(
         technique="Lean 4 proof (tree building performs no effect for every tree, from the generated AllInitInert side-condition and flow facts) + instrumented runs of get_untrusted_types / visualize / pre-verdict load",
@@ -48,7 +48,7 @@ CHECKS = {
         design="6/C08"),
     "C11": dict(
         technique="Lean 4 proof (acceptance without a trusted list implies membership in the default lists, corollary of C01; set algebra defaults ⊆ families, defaults ∩ dangerous = ∅ decided in the kernel over interned ids) + enumeration of (kind, slot, dangerous name) refusals on the implementation",
-        text="no_T_only_defaults for every tree; defaults_in_families / defaults_not_dangerous by decide +kernel on tables regenerated from the live default lists and the installed numpy/scipy/sklearn/stdlib namespaces (589 default names, ~4000 dangerous names); every registered kind is given dangerous names and must report and refuse them.",
+        text="no_T_only_defaults_archive for every JSON schema (no hypothesis on the tree) and no_T_only_defaults for every tree; defaults_in_families / defaults_not_dangerous by decide +kernel on tables regenerated from the live default lists and the installed numpy/scipy/sklearn/stdlib namespaces (589 default names, ~4000 dangerous names); every registered kind is given dangerous names and must report and refuse them.",
         note="Trusted: Lean kernel; translate/trust.py (family predicates and name resolution are evaluated by Python in the pinned environment); quick samples 25 names per kind, thorough enumerates all.",
         design="6/C11"),
     "C13": dict(
